@@ -123,7 +123,7 @@ def check_normalize(case, ctx):
     kinds_all = []
     for descs in case["params"]:
         # parameters correspond by knot index / span fraction; the 'other direction' class does not correspond
-        descs = [(["in"] + list(x[1:3])) if x[0] in ("other", "near") else x for x in descs]
+        descs = [(["in"] + list(x[1:3])) if x[0] in ("other", "near", "within") else x for x in descs]
         uN, kinds = build.resolve_params(N, descs)
         uF, _ = build.resolve_params(Fo, descs)
         kinds_all += kinds
@@ -150,7 +150,7 @@ def check_normalize(case, ctx):
     ctx.nt(any(k in ("knot", "end", "start") for k in kinds_all), "on-knot-or-end")
     plN, plF = [], []
     for descs in case["params"]:
-        descs = [(["in"] + list(x[1:3])) if x[0] in ("other", "near") else x for x in descs]
+        descs = [(["in"] + list(x[1:3])) if x[0] in ("other", "near", "within") else x for x in descs]
         plN.append(build.call_param(N, build.resolve_params(N, descs)[0]))
         plF.append(build.call_param(Fo, build.resolve_params(Fo, descs)[0]))
     ln, lf = N.evaluate_list(plN), Fo.evaluate_list(plF)
@@ -178,7 +178,7 @@ def check_normalize(case, ctx):
         k = case["k"] % pd
         degs = d["degree"]
         if op == "insert":
-            ins = (["in"] + list(case["ins"][1:])) if case["ins"][0] in ("other", "near", "decimal", "again") else case["ins"]
+            ins = (["in"] + list(case["ins"][1:])) if case["ins"][0] in ("other", "near", "decimal", "again", "within") else case["ins"]
             pickN = pick_insert(degs[k], build.kvs_of(N)[k], build.sizes_of(N)[k], ins)
             pickF = pick_insert(degs[k], build.kvs_of(Fo)[k], build.sizes_of(Fo)[k], ins)
             if pickN is None or pickF is None or pickN[1:] != pickF[1:]:
@@ -201,7 +201,7 @@ def check_normalize(case, ctx):
         ctx.check(_rel_eq([list(p) for p in N.evalpts], [list(p) for p in Fo.evalpts]), "normalize-op-shape", "shape after %s differs between the two settings" % op)
     elif op == "split" and pd < 3:
         k = case["k"] % pd
-        ins = (["in"] + list(case["ins"][1:3])) if case["ins"][0] in ("other", "near", "decimal", "again") else case["ins"][:3]
+        ins = (["in"] + list(case["ins"][1:3])) if case["ins"][0] in ("other", "near", "decimal", "again", "within") else case["ins"][:3]
         uN, kind = build.resolve_param(d["degree"][k], build.kvs_of(N)[k], build.sizes_of(N)[k], ins)
         uF, _ = build.resolve_param(d["degree"][k], build.kvs_of(Fo)[k], build.sizes_of(Fo)[k], ins)
         if kind in ("start", "end"):
